@@ -41,7 +41,7 @@ theorem cross_format : crossAll rows = true := by decide +kernel
 
 /-- the probe rows of one (format, quantity) all violate the table, and there is at least one -/
 def violated (fmt qty : String) : Bool :=
-  let rs := rows.filter fun r => r.fmt == fmt && r.qty == qty
+  let rs := rows.filter fun r => r.fmt == fmt && r.qty == qty && r.dir != "redump"
   !rs.isEmpty && rs.all fun r => !rowOk constants r
 
 /-- KNOWN: masses from GAMESS punch files stay in amu (factor 1 instead of `amu`). -/
